@@ -80,9 +80,10 @@ def sched_params(tier):
         ps += [P("wdelay", 0, 2), P("f1", 0, 1)]
     for j in range(D):
         ps += [P(f"gap{j}", 0, L), P(f"arm{j}", 0, 4)]
-    ps.append(P("env", 0, 3) if tier == "quick" else P("slow", 0, 1))
+    ps.append(P("env", 0, 4) if tier == "quick" else P("slow", 0, 1))
     if tier != "quick":
         ps.append(P("refused", 0, 2))
+        ps.append(P("injwait", 0, 1))
     return ps
 
 
@@ -98,11 +99,12 @@ def sched_fn(a, tier):
     fillers = [f0, 1 - f0] if quick else [f0, pick(a["f1"], 2)]
     # slow: an application-level listener with a 1-slot queue that subscribed first and never reads; refused: see below.
     # quick tier: one of {neither, slow listener, refused publication first, private-context factory first}; thorough: the full product
+    # injwait: the second waiter gets the resource as an injected parameter of an @inject coroutine function
     if quick:
-        envk = pick(a["env"], 4)
-        slow, refused = int(envk == 1), {2: 1, 3: 2}.get(envk, 0)
+        envk = pick(a["env"], 5)
+        slow, refused, injwait = int(envk == 1), {2: 1, 3: 2}.get(envk, 0), int(envk == 4)
     else:
-        slow, refused = pick(a["slow"], 2), pick(a["refused"], 3)
+        slow, refused, injwait = pick(a["slow"], 2), pick(a["refused"], 3), pick(a["injwait"], 2)
     tape = DeviationTape([(a[f"gap{j}"], a[f"arm{j}"]) for j in range(D)], L)
     env = Env()
     vals = {"match": {} if mk == 4 else object()}
@@ -138,7 +140,8 @@ def sched_fn(a, tier):
 
     wait = [("cp",)] * wdelay + [("wait", "w", T, "special")]
     w1 = NodeSpec(1, 0, prepare=wait if wphase == 0 else [("call", opt_probe)], start=wait if wphase == 1 else [], alias="w1")
-    w2 = NodeSpec(3, 0, prepare=[] if wphase == 0 else list(wait), start=list(wait) if wphase == 0 else [], alias="w2")
+    wait2 = [("cp",)] * wdelay + [("injwait" if injwait else "wait", "w", T, "special")]
+    w2 = NodeSpec(3, 0, prepare=[] if wphase == 0 else list(wait2), start=list(wait2) if wphase == 0 else [], alias="w2")
     pub = NodeSpec(2, 0, prepare=steps if pphase == 0 else [], start=steps if pphase == 1 else [], alias="p/special")
     noise = NodeSpec(4, 0, prepare=None, start=[("pub", "noise", object(), "default", [T])], alias="q/other")
     # a plain-aliased sibling AFTER the slashed ones: its default-named resource must stay (T,'default')
@@ -174,7 +177,7 @@ def sched_fn(a, tier):
     summary = {"match": MATCH_KINDS[mk], "match_position": pos, "fillers": [FILLERS[f] for f in fillers], "checkpoints_between": bool(cps),
                "waiters_in": ["prepare", "start"][wphase], "waiter_checkpoints_before_request": wdelay,
                "publisher_in": ["prepare", "start"][pphase], "slow_first_subscriber": bool(slow), "schedule": tape.taken,
-               "publisher_first": ["-", "attempts a publication that is refused", "registers a private factory for the same key in a context of its own and leaves it"][refused]}
+               "second_waiter_uses": "@inject" if injwait else "get_resource()", "publisher_first": ["-", "attempts a publication that is refused", "registers a private factory for the same key in a context of its own and leaves it"][refused]}
     if refused == 1 and not env.has("refused", 2, "rejected") and env.has("pub", 2, "rejected"):
         return FAIL("conflicting-publication-accepted", env.log, summary)
     if exc is not None:
@@ -441,4 +444,66 @@ NESTED = Harness(
     stubs=STUBS_COMMON,
 )
 
-HARNESSES = [SCHED, BURST, ABANDON, NESTED]
+
+# ------------------------------------------------------------------------------ W-double
+def double_params(tier):
+    return [P("da", 0, 2), P("db", 0, 2), P("phase", 0, 1), P("third", 0, 1), P("gap0", 0, 8), P("arm0", 0, 3)]
+
+
+@guard
+def double_fn(a, tier):
+    """ONE component waits for two (or three) resources at the same time, from tasks of its own task group."""
+    da, db, phase, third = pick(a["da"], 3), pick(a["db"], 3), pick(a["phase"], 2), pick(a["third"], 2)
+    tape = DeviationTape([(a["gap0"], a["arm0"])], 8)
+    env = Env()
+    va, vb, vc = object(), object(), object()
+    got = {}
+
+    def concurrent_waits(env_, node):
+        async def go():
+            from asphalt.core import get_resource
+
+            async def need(tag, t, name):
+                got[tag] = await get_resource(t, name)
+
+            async with anyio.create_task_group() as tg:
+                tg.start_soon(need, "a", RT[0], "a")
+                tg.start_soon(need, "b", RT[1], "b")
+                if third:
+                    tg.start_soon(need, "c", RT[2], "c")
+
+        return go()
+
+    waiter = NodeSpec(1, 0, prepare=[("call", concurrent_waits)] if phase == 0 else [], start=[("call", concurrent_waits)] if phase == 1 else [], alias="waiter")
+    pa = NodeSpec(2, 0, prepare=[("cp",)] * (1 + da) + [("pub", "A", va, "a", [RT[0]])], start=[], alias="pa")
+    pb = NodeSpec(3, 0, prepare=[("cp",)] * (1 + db) + [("pub", "B", vb, "b", [RT[1]]), ("cp",), ("pub", "C", vc, "c", [RT[2]])], start=[], alias="pb")
+    classes = build_classes(env, [NodeSpec(0, -1, prepare=[], start=[]), waiter, pa, pb])
+
+    async def main():
+        async with Context():
+            await start_component(classes[0], {}, timeout=1000)
+
+    _, exc, k = run(main, chooser=tape)
+    summary = {"concurrent_waits_in": ["prepare", "start"][phase], "number_of_waits": 2 + third, "publisher_delays": [1 + da, 1 + db], "schedule": tape.taken}
+    if exc is not None:
+        lost = isinstance(exc, (TimeoutError, symsched.Deadlock))
+        return FAIL("double:lost-wakeup" if lost else f"double:startup-failed:{type(exc).__name__}", f"{exc!r} log={env.log}", summary)
+    if got.get("a") is not va or got.get("b") is not vb or (third and got.get("c") is not vc):
+        return FAIL("double:wrong-object", repr(got), summary)
+    return OK(summary, True)
+
+
+DOUBLE = Harness(
+    prop="C06",
+    name="W-double",
+    fn=double_fn,
+    params=double_params,
+    cube=lambda tier: 3,
+    title="one component waiting for several resources at once (tasks of its own task group)",
+    bound_text=lambda tier: "a component starts 2-3 concurrent get_resource() calls in prepare()/start(); two siblings publish the resources after 1-3 checkpoints; FIFO with one deviation in 8 decisions",
+    oracle="startup completes and every wait returns its own published object",
+    outside="more than 3 concurrent waits",
+    stubs=STUBS_COMMON,
+)
+
+HARNESSES = [SCHED, BURST, ABANDON, NESTED, DOUBLE]
